@@ -770,10 +770,13 @@ MHD_del_response_header (struct MHD_Response *response,
                       pos->value,
                       content_len)))
     {
+      const bool is_header = (MHD_HEADER_KIND == pos->kind);
       _MHD_remove_header (response, pos);
       free (pos->header);
       free (pos->value);
       free (pos);
+      if (! is_header)
+        return MHD_YES; /* Footers do not affect automatic headers flags */
       if ( (MHD_STATICSTR_LEN_ (MHD_HTTP_HEADER_TRANSFER_ENCODING) ==
             header_len) &&
            MHD_str_equal_caseless_bin_n_ (header,
